@@ -1,4 +1,5 @@
 """Helpers of the C15 check: token layout, expected trees with byte spans, tree comparison."""
+import json
 
 SEPARATORS = ["", " ", "\n", "\t", "/*c*/", "# c\n"]
 
@@ -75,14 +76,29 @@ def expected_tree(n, spans):
 
 
 def show(n):
-    """Compact rendering of a tree for messages."""
+    """Canonical text of a tree with byte spans: exactly the harness's `canon`."""
     if n["n"] == "none":
         return "_"
-    head = n["n"] + (":" + n["v"] if n.get("v") else "")
+    head = n["n"] + (":" + json.dumps(n["v"]) if n.get("v") else "")
     if n.get("s") is not None:
         head += f"@{n['s']}-{n['e']}"
     if n["c"]:
         return head + "(" + ",".join(show(c) for c in n["c"]) + ")"
+    return head
+
+
+def canon(n, spans):
+    """Canonical text the harness must return for the spec node n under the layout `spans`."""
+    kind = n["n"]
+    if kind == "none":
+        return "_"
+    v = n["v"]
+    head = kind + (":" + json.dumps(v) if v else "")
+    if kind not in SPANLESS:
+        head += f"@{spans[n['f'] - 1][0]}-{spans[n['l'] - 1][1]}"
+    c = n["c"]
+    if c:
+        return head + "(" + ",".join([canon(x, spans) for x in c]) + ")"
     return head
 
 
